@@ -100,3 +100,35 @@ package trace
 //@   overflow assumed
 //@   requires forall i in 0 .. len(options) : options[i] != nil
 //@   ensures sp != nil
+
+// ======================================================================== ReadOnlySpan accessors (used by exporters, C13)
+// A finished span handed to an exporter is a snapshot: its accessors are deterministic functions of the span value (assumed of
+// third-party implementations; the SDK's snapshot type returns its fields).
+//@ interface ReadOnlySpan.Name() (r string)
+//@   pure
+//@ interface ReadOnlySpan.SpanContext() (r trace.SpanContext)
+//@   pure
+//@ interface ReadOnlySpan.Parent() (r trace.SpanContext)
+//@   pure
+//@ interface ReadOnlySpan.SpanKind() (r trace.SpanKind)
+//@   pure
+//@ interface ReadOnlySpan.StartTime() (r time.Time)
+//@   pure
+//@ interface ReadOnlySpan.EndTime() (r time.Time)
+//@   pure
+//@ interface ReadOnlySpan.Attributes() (r []attribute.KeyValue)
+//@   pure
+//@ interface ReadOnlySpan.Links() (r []Link)
+//@   pure
+//@ interface ReadOnlySpan.Events() (r []Event)
+//@   pure
+//@ interface ReadOnlySpan.Status() (r Status)
+//@   pure
+//@ interface ReadOnlySpan.DroppedAttributes() (r int)
+//@   pure
+//@ interface ReadOnlySpan.DroppedLinks() (r int)
+//@   pure
+//@ interface ReadOnlySpan.DroppedEvents() (r int)
+//@   pure
+//@ interface ReadOnlySpan.ChildSpanCount() (r int)
+//@   pure
